@@ -1,7 +1,7 @@
 #!/usr/bin/env python3
 # jobs for units/codec_comp.cpp (fixed-shape composites): every lemma x type x reader/writer kit.
 # Byte loops have constant trip count MAXN; element loops are constant too: complete unwinding.
-types = [("arru16", 10), ("arrf32", 14), ("pair", 14), ("tuple", 11), ("s1", 18), ("s2", 20), ("s3", 12), ("s4", 12), ("v1", 5), ("opti32", 7), ("resu16", 8), ("var", 9)]
+types = [("arru16", 10), ("arrf32", 14), ("pair", 14), ("tuple", 11), ("s1", 18), ("s2", 20), ("s3", 12), ("s4", 12), ("v1", 5), ("opti32", 7), ("resu16", 8), ("var", 9), ("optp1", 7), ("varp1", 9), ("arrp1", 12)]
 out = []
 extra = ""
 def job(name, props, unwind, tier="quick"):
